@@ -45,7 +45,7 @@ package mqtt
 //@ ensures[C08] forall(i, old(wire_len(conn)), wire_len(conn), wire(conn)[i] == p[i - old(wire_len(conn))])
 //@ ensures[C08,C14] err == nil ==> wire_len(conn) == old(wire_len(conn)) + len(p)
 //@ ensures[C08] forall(k, 0, len(p), p[k] == old(p[k]))
-//@ ensures foreign(err)
+//@ ensures foreign(err) && !perr(err)
 
 //@ func mqtt.(*Client).peekPacket -> head, err
 //@ modifies c.peek, rx_pos(c.bufr), rx_buf(c.bufr), rx_pend(c.bufr), rdl(c.readConn), cpos(rx_src(c.bufr))
@@ -439,6 +439,7 @@ package mqtt
 //@ ensures[C11] !closed(c.writeSem) ==> forall(k, !has(c.perPacketID, k)) && len(c.pingAck) == 0
 //@ ensures[C14] forall(k, wire_len(k) == old(wire_len(k)))
 //@ ensures writable(c) && sigfull(c) && !closed(c.pingAck) && cap(c.pingAck) == 1
+//@ ensures closed(c.writeSem) ==> c.readConn == old(c.readConn) && c.bufr == old(c.bufr) && c.peek == old(c.peek) && c.bigMessage == old(c.bigMessage) && forall(k, has(c.perPacketID, k) == old(has(c.perPacketID, k))) && len(c.pingAck) == old(len(c.pingAck))
 
 // resend: every pending record from seqNoOffset on is loaded and written in ascending order;
 // a record written completely counts as submitted even if a later one fails.
@@ -462,14 +463,14 @@ package mqtt
 // dialAndConnect: dial, CONNECT/CONNACK handshake; on success a live connection and its reader.
 //@ func mqtt.(*Client).dialAndConnect -> conn, bufr, err
 //@ unverified
-//@ modifies wire, wire_len, wclosed, wdl, rdl, c.InNewSession.v, rx_pos, rx_buf, rx_pend, rx_size
+//@ modifies wire, wire_len, wclosed, wdl, rdl, c.InNewSession.v, cpos
 //@ ensures err == nil ==> conn != nil && bufr != nil && conn != boxed(connSignal, 0) && conn != boxed(connSignal, 1) && rx_src(bufr) == conn && rx_bufref(bufr) > 0 && fresh_ref(rx_bufref(bufr)) && rx_size(bufr) == readBufSize
 //@ ensures err != nil ==> conn == nil && bufr == nil
 
 // connect: installs a new connection. Resends happen while both sequence tokens and the
 // write token are held and after connection control was handed back (so Close can interrupt).
 //@ func mqtt.(*Client).connect -> err
-//@ modifies chanstate(c.connSem), chanstate(c.writeSem), chanstate(c.atLeastOnce.seqSem), chanstate(c.exactlyOnce.seqSem), chanstate(c.onlineSig), chanstate(c.offlineSig), chanstate(qat(c.onlineSig, 0)), chanstate(qat(c.offlineSig, 0)), c.readConn, c.bufr, c.reconnectWait, wire, wire_len, wclosed, wdl, rdl, c.InNewSession.v, rx_pos, rx_buf, rx_pend, rx_size
+//@ modifies chanstate(c.connSem), chanstate(c.writeSem), chanstate(c.atLeastOnce.seqSem), chanstate(c.exactlyOnce.seqSem), chanstate(c.onlineSig), chanstate(c.offlineSig), chanstate(qat(c.onlineSig, 0)), chanstate(qat(c.offlineSig, 0)), c.readConn, c.bufr, c.reconnectWait, wire, wire_len, wclosed, wdl, rdl, c.InNewSession.v, cpos
 // Rely: the semaphores are closed only by the holder of the connSem token (Close, Disconnect)
 // and the sequence semaphores only by the read routine itself (termCallbacks).
 //@ stable writeSem, seqSem
@@ -495,7 +496,7 @@ package mqtt
 //@ ensures err == nil ==> rx_bufref(c.bufr) > 0 && fresh_ref(rx_bufref(c.bufr)) && rx_size(c.bufr) == readBufSize
 //@ ensures !closed(c.atLeastOnce.seqSem) && !closed(c.exactlyOnce.seqSem)
 //@ ensures[C10] err == nil ==> rx_src(c.bufr) == c.readConn
-//@ ensures[C12] old(closed(c.writeSem)) ==> err != nil
+//@ ensures[C12] old(closed(c.writeSem)) ==> err != nil && closed(c.writeSem)
 //@ ensures[C07] c.pendingAck == old(c.pendingAck)
 //@ ensures[C01] c.Acked == old(c.Acked) && c.Received == old(c.Received) && c.Completed == old(c.Completed)
 
@@ -557,22 +558,25 @@ package mqtt
 //@ loop 1: invariant n >= 0 && n <= old(n) && rx_pos(c.bufr) + n == old(rx_pos(c.bufr)) + old(n)
 //@ ensures[C06] err == nil ==> rx_pos(c.bufr) == old(rx_pos(c.bufr)) + n
 //@ ensures[C06] rx_pos(c.bufr) >= old(rx_pos(c.bufr)) && rx_pos(c.bufr) <= old(rx_pos(c.bufr)) + n
+//@ ensures foreign(err) && !perr(err)
 
 // The read buffer size is a package variable; it is assumed not to change while a client
 // exists and to be at least bufio's minimum (the package sets 128 KiB).
 //@ global readBufSize >= 16
 
 // The read routine. rdinv: the part of the client invariant the read routine relies on and restores.
-//@ pred rdinv(c): writable(c) && sigfull(c) && c.connSem != nil && cap(c.connSem) == 1 && c.connSem != c.writeSem && (closed(c.connSem) ==> len(c.connSem) == 0) && c.persistence != nil && c.perPacketID != nil && c.pingAck != nil && !closed(c.pingAck) && cap(c.pingAck) == 1 && c.atLeastOnce.queue != nil && c.exactlyOnce.queue != nil && c.atLeastOnce.queue != c.exactlyOnce.queue && c.pingAck != c.atLeastOnce.queue && c.pingAck != c.exactlyOnce.queue && c.atLeastOnce.seqSem != nil && cap(c.atLeastOnce.seqSem) == 1 && c.exactlyOnce.seqSem != nil && cap(c.exactlyOnce.seqSem) == 1 && c.atLeastOnce.seqSem != c.exactlyOnce.seqSem && !closed(c.atLeastOnce.seqSem) && !closed(c.exactlyOnce.seqSem) && wrap64(c.Received - c.Completed) <= len(c.exactlyOnce.queue) && cap(c.exactlyOnce.queue) <= 16384 && (len(c.pendingAck) == 0 || len(c.pendingAck) == 4) && (c.bufr != nil ==> rx_bufref(c.bufr) > 0 && rx_bufref(c.bufr) != ref(c.pendingAck) && rx_size(c.bufr) == readBufSize) && (ref(c.peek) == 0 || (c.bufr != nil && ref(c.peek) == rx_bufref(c.bufr))) && (c.bigMessage != nil ==> c.bigMessage.Size >= 0) && (c.bufr != nil ==> len(c.peek) <= rx_size(c.bufr))
+//@ pred rdinv(c): writable(c) && sigfull(c) && c.connSem != nil && cap(c.connSem) == 1 && c.connSem != c.writeSem && (closed(c.connSem) ==> len(c.connSem) == 0) && c.persistence != nil && c.perPacketID != nil && c.pingAck != nil && !closed(c.pingAck) && cap(c.pingAck) == 1 && c.atLeastOnce.queue != nil && c.exactlyOnce.queue != nil && c.atLeastOnce.queue != c.exactlyOnce.queue && c.pingAck != c.atLeastOnce.queue && c.pingAck != c.exactlyOnce.queue && c.atLeastOnce.seqSem != nil && cap(c.atLeastOnce.seqSem) == 1 && c.exactlyOnce.seqSem != nil && cap(c.exactlyOnce.seqSem) == 1 && c.atLeastOnce.seqSem != c.exactlyOnce.seqSem && !closed(c.atLeastOnce.seqSem) && !closed(c.exactlyOnce.seqSem) && wrap64(c.Received - c.Completed) <= len(c.exactlyOnce.queue) && cap(c.exactlyOnce.queue) <= 16384 && (len(c.pendingAck) == 0 || len(c.pendingAck) == 4) && (c.bufr != nil ==> rx_bufref(c.bufr) > 0 && allocated(rx_bufref(c.bufr)) && rx_bufref(c.bufr) != ref(c.pendingAck) && rx_size(c.bufr) == readBufSize) && (ref(c.peek) == 0 || (c.bufr != nil && ref(c.peek) == rx_bufref(c.bufr))) && (c.bigMessage != nil ==> c.bigMessage.Size >= 0) && (c.bufr == nil ==> c.bigMessage == nil && c.peek == nil) && (c.bufr != nil ==> len(c.peek) <= rx_size(c.bufr))
 //@ pred rdmaps(c): forall(k, k >= 32768 && k < 65536 && st_has(c.persistence, k) ==> st_len(c.persistence, k) >= 2)
 //@ func mqtt.(*Client).readSlices -> message, topic, err
 //@ stable writeSem, seqSem
 //@ requires rdinv(c) && rdmaps(c) && (c.readConn == nil) == (c.bufr == nil)
 //@ loop 1: invariant rdinv(c)
 //@ loop[reveal=flatlen_] 1: invariant rdmaps(c)
-//@ loop 1: invariant c.readConn != nil && c.bufr != nil
+//@ loop 1: invariant c.readConn != nil && c.bufr != nil && c.bigMessage == nil
 //@ at[C04,C07] call write#1: assert len(p) == 4 && p == c.pendingAck && (p[0] / 16 == 5 ==> st_has(c.persistence, 65536 + p[2]*256 + p[3]))
 //@ ensures[C06,C07,C10,C13] rdinv(c) && ((c.readConn == nil) == (c.bufr == nil))
 //@ ensures[C10,C13] err != nil && Is(err, errProtoReset) && !closed(c.writeSem) ==> c.readConn == nil && c.bufr == nil && c.peek == nil && c.bigMessage == nil
 //@ ensures[C06] err == nil ==> c.bufr != nil && (ref(message) == 0 || ref(message) == rx_bufref(c.bufr)) && (ref(topic) == 0 || ref(topic) == rx_bufref(c.bufr))
-//@ ensures[C06] hastype(err, *BigMessage) ==> c.bigMessage != nil && c.bigMessage == unbox(err, *BigMessage) && c.peek == nil
+// An error return that leaves the connection in place is a Persistence failure (or a BigMessage).
+//@ ensures[C06,C10,id=offline_on_error] err != nil && !hastype(err, *BigMessage) && c.readConn != nil && !closed(c.writeSem) ==> perr(err)
+//@ ensures[C06] c.bigMessage != nil && !closed(c.writeSem) ==> hastype(err, *BigMessage) && c.bigMessage == unbox(err, *BigMessage) && c.peek == nil
